@@ -56,12 +56,7 @@ type DirIU interface{ json.Unmarshaler }
 type DirIT interface{ encoding.TextUnmarshaler }
 type DirIM interface{ M() }
 
-// DirRef: a NAMED pointer type whose element has a pointer-receiver json.Unmarshaler; DirRef itself has no methods
-// (finding C09-jitdec-namedptr-inline-depth)
-type DirRef *MV
-
 var dirLibExtra = map[string]reflect.Type{
-	"DirRef":   reflect.TypeOf(DirRef(nil)),
 	"DirSJ":    reflect.TypeOf(DirSJ("")),
 	"DirST":    reflect.TypeOf(DirST("")),
 	"DirVJ":    reflect.TypeOf(DirVJ{}),
